@@ -380,9 +380,7 @@ def expected(call):
         a, b = bdd_nodes(call[1]), bdd_nodes(call[2])
         if a[0][0] != b[0][0]:
             return "N"
-        ta, tb = raw_tt(a), raw_tt(b)
-        le = all((not x) or y for x, y in zip(ta, tb))
-        ge = all((not y) or x for x, y in zip(ta, tb))
+        le, ge = raw_implies(a, b), raw_implies(b, a)      # memoised product walk over the raw arrays: any variable count
         return ["S", "EQ"] if le and ge else ["S", "LT"] if le else ["S", "GT"] if ge else "N"
     if op == "exact_card":
         c = raw_count(bdd_nodes(call[1]))
